@@ -92,6 +92,7 @@ func (w *World) Install() {
 		h.Lock = w.Sched.Lock
 		h.Yield = w.Sched.Yield
 		h.OnceEnter = w.Sched.OnceEnter
+		h.OnceExit = w.Sched.OnceExit
 	}
 	if w.FLObs != nil {
 		h.Freelist = func(db *bolt.DB, f fl.Interface) fl.Interface {
